@@ -367,7 +367,9 @@ func genE2E(r *prng.R, tier string) (e2eCfg, []e2eOp) {
 			switch {
 			case x < 6:
 				o.Form = "ping"
-			case x < 12 && c.Via == "conn" && bodyMethod(c.Body) == "":
+			case x < 12 && c.Via == "conn" && bodyMethod(c.Body) == "" && !c.SNoCopy:
+				// (with NoCopy the server hands a stream handler bytes that are already back in the
+				// buffer pool: whether the handler still sees them intact is a race the user asked for)
 				o.Form = []string{"stream", "pushfirst"}[r.Intn(2)]
 				o.NMsg = r.Intn(8)
 				o.Size = sizes[r.Intn(9)]
